@@ -52,6 +52,28 @@ def _kind(dtype):
         return 'O'
 
 
+import operator as _op
+
+
+def _land(a, b):
+    return core.And(a, b)
+
+
+def _lor(a, b):
+    return core.Or(a, b)
+
+
+def _lnot(a):
+    return core.Not(a)
+
+
+_CMP = {_np.greater: _op.gt, _np.greater_equal: _op.ge, _np.less: _op.lt,
+        _np.less_equal: _op.le, _np.equal: _op.eq, _np.not_equal: _op.ne,
+        _np.logical_and: _land, _np.logical_or: _lor,
+        _np.logical_not: _lnot}
+_KEEP_DECL = set()
+
+
 class SArr(_np.ndarray):
     """object ndarray holding symx scalars (and plain numbers)."""
     decl = None     # declared dtype (for no-wrap-around obligations)
@@ -62,6 +84,40 @@ class SArr(_np.ndarray):
 
     def __getitem__(self, k):
         return super().__getitem__(_fixidx(k))
+
+    def __array_ufunc__(self, ufunc, method, *inputs, **kwargs):
+        # comparisons / logical ops on object arrays would call bool()
+        # on every element (numpy picks the OO->? loop): build the
+        # symbolic truth values instead of forking
+        if method == '__call__' and ufunc in _CMP and not kwargs.get('out'):
+            op = _CMP[ufunc]
+            ins = [_np.asarray(x.view(_np.ndarray) if isinstance(x, SArr)
+                               else x, dtype=object) for x in inputs]
+            shape = _np.broadcast_shapes(*[i.shape for i in ins])
+            ins = [_np.broadcast_to(i, shape) for i in ins]
+            out = _np.empty(shape, dtype=object)
+            anysym = False
+            for idx in _np.ndindex(shape):
+                r = op(*[i[idx] for i in ins])
+                if isinstance(r, Sym):
+                    anysym = True
+                out[idx] = r
+            if not anysym:
+                out = out.astype(bool)
+                return out if shape else bool(out[()])
+            return out.view(SArr) if shape else out[()]
+        ins = tuple(x.view(_np.ndarray) if isinstance(x, SArr) else x
+                    for x in inputs)
+        if 'out' in kwargs and kwargs['out'] is not None:
+            kwargs['out'] = tuple(x.view(_np.ndarray)
+                                  if isinstance(x, SArr) else x
+                                  for x in kwargs['out'])
+        r = getattr(ufunc, method)(*ins, **kwargs)
+        if isinstance(r, _np.ndarray) and r.dtype == object \
+                and not isinstance(r, SArr):
+            r = r.view(SArr)
+            r.decl = self.decl if ufunc in _KEEP_DECL else None
+        return r
 
     def __setitem__(self, k, v):
         if self.decl is not None and core.CUR is not None \
